@@ -168,3 +168,27 @@ func HarnessSelfTestConc(a []int) {
 	}
 	verifCover("self.end")
 }
+
+func init() {
+	verifHarnesses["HarnessSelfTestClock"] = HarnessSelfTestClock
+}
+
+// HarnessSelfTestClock: time.Now / Since / Sub / Add / Before / After on the virtual clock agree with
+// the durations slept (engine model of wall-clock reads; native runs are not comparable).
+func HarnessSelfTestClock(a []int) {
+	t0 := time.Now()
+	verifSleep(int64(30 * time.Millisecond))
+	t1 := time.Now()
+	verifAssert("self.clock.since", time.Since(t0) == 30*time.Millisecond)
+	verifAssert("self.clock.sub", t1.Sub(t0) == 30*time.Millisecond && t0.Sub(t1) == -30*time.Millisecond)
+	verifAssert("self.clock.order", t0.Before(t1) && t1.After(t0) && !t1.Before(t0) && !t0.Equal(t1))
+	t2 := t0.Add(30 * time.Millisecond)
+	verifAssert("self.clock.add", t2.Equal(t1) && !t2.After(t1) && t2.Sub(t0) == 30*time.Millisecond)
+	verifAssert("self.clock.until", time.Until(t0.Add(time.Second)) == 970*time.Millisecond)
+	done := false
+	timer := time.NewTimer(20*time.Millisecond - time.Since(t1))
+	<-timer.C
+	done = true
+	verifAssert("self.clock.timer", done && time.Since(t0) == 50*time.Millisecond)
+	verifCover("self.clock.end")
+}
